@@ -1069,8 +1069,8 @@ theorem erPrepareNext_ev (w : World) (st : St) (r : ER) : Ev st (erPrepareNext w
       · split
         · exact Ev.refl st
         · split <;> exact Ev.refl st
-      · have h := copyAllLimited_ev w true st.op.conf.maxMsg st.src.fuel st 0 []
-        generalize copyAllLimited w true st.op.conf.maxMsg st.src.fuel st 0 [] = rr at h ⊢
+      · have h := copyAllLimited_ev w true (bufferedBodyLimit st.op.conf.maxMsg) st.src.fuel st 0 []
+        generalize copyAllLimited w true (bufferedBodyLimit st.op.conf.maxMsg) st.src.fuel st 0 [] = rr at h ⊢
         obtain ⟨data, e, s1, p⟩ := rr
         simp only at h ⊢
         split
